@@ -61,6 +61,8 @@ def control_fixture(prop):
 
 
 E4_PRIMS = None
+import threading
+RULES_LOCK = threading.Lock()
 
 
 def cross_extraction(prop):
@@ -121,37 +123,48 @@ def run(prop, ev):
     base = None
     try:
         base = scratch_copy()
-        for m in mine + benign:
+        import queue
+        from concurrent.futures import ThreadPoolExecutor
+        nslots = int(os.environ.get('VERIF_SELFTEST_JOBS', '4'))
+        slots = queue.Queue()
+        for i in range(nslots):
+            slots.put(i)
+
+        def one(m):
             patch = os.path.join(VERIF, m['patch'])
             d = tempfile.mkdtemp(prefix='pearl-verif-mut-')
+            slot = slots.get()
             try:
                 subprocess.run(['rsync', '-a', base + '/', d + '/'], check=True)
                 if not apply_patch(d, patch):
-                    matrix.append({'mutant': m['id'], 'kind': m.get('kind'), 'status': 'skipped (patch does not apply to the current tree)'})
-                    continue
+                    return {'mutant': m['id'], 'kind': m.get('kind'), 'status': 'skipped (patch does not apply to the current tree)'}, None
                 try:
-                    prog = engine.extract(repo=d, tag='mut')
-                except engine.EngineError as e:
-                    matrix.append({'mutant': m['id'], 'kind': m.get('kind'), 'status': 'skipped (does not compile on the current tree)'})
-                    continue
-                code, _, mev, ctx = engine.run_property(prop, 'thorough', prog=prog, write=False)
+                    prog = engine.extract(repo=d, tag='mut', target=os.path.join(engine.CACHE, 'target-mut-%d' % slot))
+                except engine.EngineError:
+                    return {'mutant': m['id'], 'kind': m.get('kind'), 'status': 'skipped (does not compile on the current tree)'}, None
+                with RULES_LOCK:    # rule modules keep module-level scratch state: evaluate one program at a time
+                    code, _, mev, ctx = engine.run_property(prop, 'thorough', prog=prog, write=False)
                 fired = sorted({i.rule for i in ctx.insts if not i.ok})
                 if m.get('kind') == 'benign':
                     if fired:
-                        matrix.append({'mutant': m['id'], 'kind': 'benign', 'status': 'FALSE-ALARM', 'fired': fired})
-                        lines.append('SELFTEST-FALSE-ALARM property=%s benign refactoring %s makes %s fire' % (prop, m['id'], fired))
-                    else:
-                        matrix.append({'mutant': m['id'], 'kind': 'benign', 'status': 'silent'})
-                    continue
+                        return ({'mutant': m['id'], 'kind': 'benign', 'status': 'FALSE-ALARM', 'fired': fired},
+                                'SELFTEST-FALSE-ALARM property=%s benign refactoring %s makes %s fire' % (prop, m['id'], fired))
+                    return {'mutant': m['id'], 'kind': 'benign', 'status': 'silent'}, None
                 want = [r for r in m['expects'] if r.startswith(prop + '.')]
                 killed = [r for r in want if r in fired]
                 if killed:
-                    matrix.append({'mutant': m['id'], 'kind': m.get('kind'), 'status': 'killed', 'by': killed, 'also_fired': [r for r in fired if r not in killed]})
-                else:
-                    matrix.append({'mutant': m['id'], 'kind': m.get('kind'), 'status': 'MISSED', 'expected': want, 'fired': fired})
-                    lines.append('SELFTEST-MISS property=%s mutant %s expected %s, fired %s' % (prop, m['id'], want, fired))
+                    return {'mutant': m['id'], 'kind': m.get('kind'), 'status': 'killed', 'by': killed, 'also_fired': [r for r in fired if r not in killed]}, None
+                return ({'mutant': m['id'], 'kind': m.get('kind'), 'status': 'MISSED', 'expected': want, 'fired': fired},
+                        'SELFTEST-MISS property=%s mutant %s expected %s, fired %s' % (prop, m['id'], want, fired))
             finally:
+                slots.put(slot)
                 shutil.rmtree(d, ignore_errors=True)
+
+        with ThreadPoolExecutor(nslots) as ex:
+            for row, line in ex.map(one, mine + benign):
+                matrix.append(row)
+                if line:
+                    lines.append(line)
     finally:
         if base:
             shutil.rmtree(base, ignore_errors=True)
